@@ -326,7 +326,8 @@ def run_case(c):
     if kind == 'prim':
         op = c['op']
         if op == 'show':
-            return {'r': [ord(ch) for ch in str(int(c['z']))]}
+            z = pyval(['int', c['z']], ctx)
+            return {'r': outcome(lambda: str(z), ctx, lambda r, _: [ord(ch) for ch in r])}
         if op == 'parse':
             s = ''.join(map(chr, c['s']))
             return {'r': outcome(lambda: int(s), ctx, lambda r, _: str(r))}
